@@ -106,8 +106,9 @@ def run(ctx):
     for cs in cases:
         if "error" in cs:
             ctx.count_case(("error", cs["index"]))
-            ctx.violation("writing/reading a generated sequence raised %s" % cs["error"],
-                          dict(kind="roundtrip-raises", case=cs["index"], items=[repr(x) for x in cs["items"]], error=cs["error"]))
+            ctx.violation("writing/reading a generated sequence raised %s%s" % (cs["error"], c01.staged_note(cs)),
+                          dict(kind="roundtrip-raises", case=cs["index"], items=[repr(x) for x in cs["items"]],
+                               raw_staged_list_elements=cs.get("raw_staged", 0), error=cs["error"]))
             return
     if check_hashes(ctx, cases):
         return
